@@ -98,6 +98,10 @@ def resolve(mod, name):
     """System object for a task / artefact system name (pair names are built on the fly)."""
     if name.startswith(PREFIX):
         return Pair(mod.SYSTEMS[name[len(PREFIX):]])
+    from mc import faults
+
+    if name.startswith(faults.PREFIX):
+        return faults.resolve(mod, name)
     return mod.SYSTEMS[name]
 
 
@@ -121,9 +125,9 @@ def _cid(cfg):
     return str(cfg.get("id", json.dumps(cfg, sort_keys=True, default=repr)))
 
 
-def derive(mod, tasks, tier):
-    if os.environ.get("VERIF_PAIRS", DEFAULT_ON) == "0" or getattr(mod, "NO_PAIRS", False):
-        return []
+def choose(mod, tasks, want):
+    """per system of the module's own dfs tasks: up to ``want`` base tasks with different configurations, evenly spaced
+    through the module's (sorted) configuration list; per configuration the task with the deepest subtree"""
     excl = set(EXCLUDE.get(getattr(mod, "PROPERTY", ""), ())) | set(getattr(mod, "PAIR_EXCLUDE", ()))
     by_sys = {}
     for t in tasks:
@@ -134,18 +138,22 @@ def derive(mod, tasks, tier):
             continue
         cfgs = by_sys.setdefault(name, {})
         cid = _cid(t["cfg"])
-        # keep, per configuration, the base task with the largest subtree below its root split
         if cid not in cfgs or t["depth"] > cfgs[cid]["depth"]:
             cfgs[cid] = t
+    for name in sorted(by_sys):
+        cids = sorted(by_sys[name])
+        if len(cids) > want:
+            cids = [cids[(j * len(cids)) // want] for j in range(want)]
+        yield name, [by_sys[name][c] for c in cids]
+
+
+def derive(mod, tasks, tier):
+    if os.environ.get("VERIF_PAIRS", DEFAULT_ON) == "0" or getattr(mod, "NO_PAIRS", False):
+        return []
     out = []
     cap = NODE_CAP[tier]
-    for name in sorted(by_sys):
+    for name, chosen in choose(mod, tasks, CFGS_PER_SYSTEM[tier]):
         base = mod.SYSTEMS[name]
-        cids = sorted(by_sys[name])
-        want = CFGS_PER_SYSTEM[tier]
-        if len(cids) > want:  # evenly spaced through the module's own (sorted) configuration list
-            cids = [cids[(j * len(cids)) // want] for j in range(want)]
-        chosen = [by_sys[name][c] for c in cids]
         pairs = []
         for j, t in enumerate(chosen):
             pairs.append((t, t))
@@ -169,8 +177,14 @@ def derive(mod, tasks, tier):
             nodes = min(cap, s ** min(ta["depth"], tb["depth"], 40))
             d_alt = max(2, int(math.log(nodes) / math.log(s) + 1e-9))
             d_free = max(2, int(math.log(nodes) / math.log(2 * s) + 1e-9))
+            cfg_b = dict(tb["cfg"])
+            if "id" in cfg_b:
+                # the configuration id only selects the random draws of a step (mc.rng.seed_step): instance b of an
+                # equal-configuration pair gets draws of its own (its model / twin is seeded with the same id), so that
+                # something handed from one instance to the other is not hidden by being identical anyway
+                cfg_b["id"] = "%s~b" % (cfg_b["id"],)
             for sched, depth in (("alt", d_alt), ("free", d_free), ("seq", d_alt)):
-                cfg = {"id": "pair:%s+%s:%s" % (ida, idb, sched), "a": ta["cfg"], "b": tb["cfg"], "sched": sched,
+                cfg = {"id": "pair:%s+%s:%s" % (ida, idb, sched), "a": ta["cfg"], "b": cfg_b, "sched": sched,
                        "h": depth // 2}
                 out.append({
                     "system": PREFIX + name, "cfg": cfg, "prefix": [], "depth": depth,
